@@ -46,6 +46,11 @@ def focus_c05(proj, rng, steps):
         steps[-1]["agree_with"] = (None, len(steps) - 2)
     steps.append(H.step_status(proj))
     if rng.random() < 0.5:
+        # patterns are given but select nothing: the requested cone is empty (not "all endpoints")
+        nomatch = [rng.choice(["NoSuchTarget", "zzz*", "?"])] + ([rng.choice(["Nope_[0-9]", "__none__"])] if rng.random() < 0.4 else [])
+        steps.append(H.step_dry(proj, nomatch))
+        steps.append(H.step_run(proj, nomatch))
+    if rng.random() < 0.5:
         steps.append(H.step_info(proj, [rng.choice(names)] if rng.random() < 0.3 else [], rng.choice(["json", "json", "pretty"])))
 
 
@@ -359,6 +364,8 @@ def progress(proj, rng):
 def focus_c07(proj, rng, steps):
     """several invocations: partial runs, cluster progress in between, prerequisites from earlier invocations"""
     names = [t["name"] for t in proj.targets]
+    if rng.random() < 0.3:
+        steps.append(H.step_run(proj, [rng.choice(["NoSuchTarget", "zzz*"])]))        # selects nothing: submits nothing
     for _ in range(rng.randint(2, 4)):
         pats = rand_patterns(rng, names, allow_nomatch=False) if rng.random() < 0.6 else []
         steps.append(H.step_run(proj, pats, reject_nth=rng.choice([None, None, None, 2, 3]) if proj.backend != "local" else None))
